@@ -183,11 +183,11 @@ Definition ex_calls : list call := [CRedirect 9 (OScalar 1 [55]); CCopyRef 1; CC
 Example ex_redirects_fresh : redirects_fresh ex_src (fuel_bound ex_src ex_calls) ex_calls (init 10).
 Proof.
   intros cs1 s m cs2 E. destruct cs1 as [|c1 cs1].
-  - injection E as <- <- <-. intros res st1 [= <- <-]. reflexivity.
-  - injection E as <- E. destruct cs1 as [|c2 cs1]; [discriminate|].
-    injection E as <- E. destruct cs1 as [|c3 cs1]; [discriminate|].
-    injection E as <- E. destruct cs1 as [|c4 cs1]; [discriminate|].
-    injection E as <- E. destruct cs1; discriminate.
+  - injection E as <- <- <-. intros res st1 Hr. injection Hr as <- <-. reflexivity.
+  - injection E as <- E. destruct cs1 as [|c2 cs1]; [discriminate E|].
+    injection E as <- E. destruct cs1 as [|c3 cs1]; [discriminate E|].
+    injection E as <- E. destruct cs1 as [|c4 cs1]; [discriminate E|].
+    injection E as <- E. destruct cs1; discriminate E.
 Qed.
 
 Example ex_total_hyp :
